@@ -406,6 +406,11 @@ class Impl(object):
             after = collections.Counter(id(x) for x in self.pending())
             if r is True:
                 self.tags.add('accepted')
+                if dup_present and self.cfg[2] and not zombie_before:
+                    twin = [x for x in bq[1] + bq[2] + bq[3] if x == m][0]
+                    self.fail('queueMsg(%s) returned True although an equal message (%s) is waiting in the queue and '
+                              'supybot.protocols.irc.queuing.duplicates refuses duplicates: it will be sent twice'
+                              % (self.ser(m), self.ser(twin)))
                 want = before + collections.Counter([id(m)])
                 if after != want:
                     self.fail('queueMsg(%s) returned True but the queues did not gain exactly that message' % self.ser(m))
